@@ -85,7 +85,7 @@ func (t *TargetsMetadata) AddRule(ruleName string, authorizedPrincipalIDs, ruleP
 		return tuf.ErrInvalidThreshold
 	}
 
-	if len(authorizedPrincipalIDs) < threshold {
+	if set.NewSetFromItems(authorizedPrincipalIDs...).Len() < threshold {
 		return tuf.ErrCannotMeetThreshold
 	}
 
@@ -124,7 +124,7 @@ func (t *TargetsMetadata) UpdateRule(ruleName string, authorizedPrincipalIDs, ru
 		return tuf.ErrInvalidThreshold
 	}
 
-	if len(authorizedPrincipalIDs) < threshold {
+	if set.NewSetFromItems(authorizedPrincipalIDs...).Len() < threshold {
 		return tuf.ErrCannotMeetThreshold
 	}
 
